@@ -49,6 +49,8 @@ struct Op {
     int drawKind = 0;    // 0 uniform, 1 r=0, 2 r=max, 3 just below threshold, 4 just above threshold
     uint64_t r64 = 0, r64b = 0;
     int bitvar = -1;     // MEAS_EXPR: index of the bit variable it defines
+    int argEffect = 0;   // rotation GATE whose angle argument is a call that 1: resets the target (legal: arguments are evaluated before the
+                         // operand is checked), 2: measures the target (the gate must then be refused, with a location)
     int loop = 0;        // GATE: 0 = a plain statement; n >= 2 = the gate sits in a for loop that runs n times
 };
 
@@ -144,6 +146,8 @@ inline std::string preamble(bool trackedFields, bool staticQubit = false) {
     s += "function bitZero() -> bit { return 0b; }\nfunction bitOne() -> bit { return 1b; }\n";
     s += "function infAngle() -> float { float b = 100000000000000000000.0f; float a = b; for (int i = 0; i < 16; i = i + 1) { a = a * b; } return a; }\n";
     s += "function nanAngle() -> float { float a = infAngle(); return a - a; }\n";
+    s += "function angleAfterReset(qubit p) -> float { reset p; return 0.3f; }\n";
+    s += "function angleAfterMeasure(qubit p) -> float { bit r = measure p; return 0.3f; }\n";
     s += "function prepH() -> qubit { qubit t; h(t); return t; }\nfunction prepN() -> qubit { qubit t; return t; }\n";
     if (staticQubit) s += "static class SQ { public static qubit s; }\n";
     s += "class Port { public qubit q; public constructor() -> Port { } public function attach(qubit w) -> void { this.q = w; } }\n";
@@ -158,6 +162,7 @@ inline std::string gateCall(const Op& o, const std::vector<DeclInfo>& decls) {
     std::string e = handleExpr(o.h);
     bool rot = o.gate >= 4;
     std::string ang = rot ? ", " + angleText(o) : "";
+    if (rot && o.argEffect) return std::string(gateName(o.gate)) + "(" + e + ", " + (o.argEffect == 1 ? "angleAfterReset(" : "angleAfterMeasure(") + e + "));";
     int path = o.path;
     if (o.h.k == 2) {  // object field: 0 direct, 1 function, 2 method on this.q, 3 another spelling via method param (on self)
         if (path % 4 == 2) return "o" + std::to_string(o.h.decl) + ".g" + gateName(o.gate) + "(" + (rot ? angleText(o) : "") + ");";
@@ -273,7 +278,7 @@ inline Json toJson(const Plan& p) {
     for (auto& o : p.ops) {
         Json j = Json::object();
         j.set("op", kindName(o.kind)).set("kind", o.kind).set("h", handleJson(o.h)).set("h2", handleJson(o.h2)).set("gate", o.gate).set("angle", o.angle).set("neg", o.angleNeg).set("path", o.path).set("cond", o.cond)
-            .set("tracked", o.tracked).set("size", o.size).set("destroy", o.viaDestroy).set("draw", o.drawKind).set("r64", sim::hex64(o.r64)).set("r64b", sim::hex64(o.r64b)).set("bitvar", o.bitvar).set("loop", o.loop);
+            .set("tracked", o.tracked).set("size", o.size).set("destroy", o.viaDestroy).set("draw", o.drawKind).set("r64", sim::hex64(o.r64)).set("r64b", sim::hex64(o.r64b)).set("bitvar", o.bitvar).set("loop", o.loop).set("arg_effect", o.argEffect);
         a.push(j);
     }
     return Json::object().set("ops", a).set("shots", p.shots).set("static_qubit", p.staticQubit);
@@ -300,6 +305,7 @@ inline Plan fromJson(const Json& j) {
         o.r64b = strtoull(e.at("r64b").asStr().c_str(), nullptr, 16);
         o.bitvar = (int)e.at("bitvar").asInt(-1);
         o.loop = e.has("loop") ? (int)e.at("loop").asInt(0) : 0;
+        o.argEffect = e.has("arg_effect") ? (int)e.at("arg_effect").asInt(0) : 0;
         p.ops.push_back(o);
     }
     return p;
@@ -320,6 +326,7 @@ struct GenOptions {
     double echoMeasureProb = 0.1;      // measure nested directly in an echo argument
     double sameQubitCxProb = 0.0;      // cx whose two operands are the same qubit, passed through two function parameters
     bool staticQubit = false;
+    double argEffectProb = 0.0;        // rotations whose angle argument resets (legal) or measures (ends the program) the target
     double hugeLoopProb = 0.0;         // a Pauli/Hadamard gate inside a loop of a little over 2^20 iterations (at most one per plan)
     double nonFiniteAngleProb = 0.0;   // a rotation whose angle is computed as inf or NaN (ends the program)
     double portProb = 0.0;             // an object whose qubit field is re-pointed at local qubits by assignment
@@ -520,6 +527,24 @@ inline Plan generate(sim::Rng& g, const GenOptions& go) {
                 continue;
             }
         }
+        if (go.argEffectProb > 0 && g.chance(go.argEffectProb)) {
+            // angle argument with a side effect on the target: reset of a measured qubit (then usable), or measurement of an active one
+            bool viaReset = !measuredIdx.empty() && g.chance(0.6);
+            if (viaReset || !active.empty()) {
+                size_t k = viaReset ? measuredIdx[g.below(measuredIdx.size())] : active[g.below(active.size())];
+                if (live[k].h.k != 4 && live[k].h.k != 6) {
+                    o.kind = GATE;
+                    o.h = live[k].h;
+                    o.gate = 4 + (int)g.below(3);
+                    o.argEffect = viaReset ? 1 : 2;
+                    o.r64 = g.next();
+                    o.r64b = g.next();
+                    if (viaReset) live[k].measured = false; else stop = true;
+                    p.ops.push_back(o);
+                    continue;
+                }
+            }
+        }
         if (active.empty()) continue;
         if (u < 0.55) {
             o.kind = GATE;
@@ -674,7 +699,9 @@ struct Interp {
             }
             return bits;
         };
-        if (o.kind == MEAS_STMT || o.kind == MEAS_EXPR) {
+        if (o.kind == GATE && o.gate >= 4 && o.argEffect == 2) {
+            if (o.h.k == 5 || o.h.decl < (int)declIdx.size()) d.push_back(spec(o.r64, sv.prob1(resolve(o.h)), true));
+        } else if (o.kind == MEAS_STMT || o.kind == MEAS_EXPR) {
             if (o.h.k == 5 || o.h.decl < (int)declIdx.size()) d.push_back(spec(o.r64, sv.prob1(resolve(o.h)), true));
         } else if (o.kind == MEAS_ARR) {
             d.push_back(spec(o.r64, sv.prob1(declIdx[(size_t)o.h.decl][0]), true));
@@ -824,6 +851,27 @@ struct Interp {
                     if (it == bitvars.end() || !it->second) break;
                 }
                 int q = resolve(o.h);
+                if (o.gate >= 4 && o.argEffect == 1) {
+                    // the angle argument resets the target before the gate looks at it: a measured qubit becomes usable again
+                    if (!measured[(size_t)q]) adoptObserved = true;   // (only generated for measured targets; a shrunk plan may differ)
+                    int was = lastMeas[(size_t)q] > 0 ? 1 : 0;
+                    sv.resetBranch(q, was);
+                    qasm.push_back("reset q[" + std::to_string(q) + "];");
+                    outcomes.push_back(-1);
+                    measured[(size_t)q] = false;
+                    lastMeas[(size_t)q] = -1;
+                    sv.gate(o.gate, q, (double)0.3f);
+                    qasm.push_back(std::string(gateName(o.gate)) + "(" + fmtAngle((double)0.3f) + ") q[" + std::to_string(q) + "];");
+                    break;
+                }
+                if (o.gate >= 4 && o.argEffect == 2) {
+                    // the angle argument measures the target: the measurement happens, then the gate is refused
+                    if (guard(q)) break;   // already measured: the measure inside the argument is refused itself
+                    size_t wpos = 0;
+                    measureOne(q, ob, wpos, ob.words.size() == 2, out, opIndex);
+                    expectError = true;
+                    break;
+                }
                 if (o.gate >= 4 && !std::isfinite(angleValue(o))) { expectError = true; nonFiniteAngle = true; break; }   // a rotation by inf/NaN is refused
                 if (guard(q)) break;
                 double t = angleValue(o);
